@@ -195,22 +195,51 @@ def gen_program(seed: int, size: int):
 
 
 # ------------------------------------------------------------------ descriptors
-def make_descs(tier, seed, which):
+ALT_PY = "/root/.pyenv/versions/3.11.7/bin/python"
+
+
+def alt_descs(tier, seed, which):
+    """the same kinds of cases computed under CPython 3.11 (child process: abstract code, certificate
+    and what the real stackscope functions return there); checked in Coq with ver = V311"""
+    import json
+    import subprocess
+    if not os.path.exists(ALT_PY):
+        return
+    env = dict(os.environ, PYTHONPATH=os.environ.get("PYTHONPATH", ""), PYTHONHASHSEED="0")
+    try:
+        p = subprocess.run([ALT_PY, "-m", "harness.wm_alt_child", tier, str(seed), which], stdout=subprocess.PIPE,
+                           stderr=subprocess.PIPE, text=True, timeout=1500 if tier == "quick" else 5000, env=env,
+                           cwd=os.path.dirname(os.path.dirname(os.path.abspath(__file__))))
+    except subprocess.TimeoutExpired:
+        yield {"_kind": "cert", "which": which, "ver": "V311", "src": "alt-error", "pre": {"obs": {"machine_error": "3.11 child timed out"}}}
+        return
+    if p.returncode != 0:
+        yield {"_kind": "cert", "which": which, "ver": "V311", "src": "alt-error",
+               "pre": {"obs": {"machine_error": "3.11 child failed: " + p.stderr[-800:]}}}
+        return
+    for line in p.stdout.splitlines():
+        if line.startswith("{"):
+            yield json.loads(line)
+
+
+def make_descs(tier, seed, which, alt=False):
     """which: 'susp' | 'run' -> descriptors for kinds cert and static"""
     rng = random.Random(seed * 104729 + 1)
     idx = stdlib_index()
     if tier == "quick":
-        pick = rng.sample(range(len(idx)), 20)
+        pick = rng.sample(range(len(idx)), 8 if alt else 20)
     else:
         pick = range(len(idx))
     descs = []
     for i in pick:
         rel, path = idx[i]
         descs.append({"src": "stdlib", "file": rel, "path": path})
-    ngen = 80 if tier == "quick" else 1500
+    ngen = (25 if alt else 80) if tier == "quick" else (600 if alt else 1500)
     for k in range(ngen):
         descs.append({"src": "gen", "seed": seed * 1000003 + k, "size": 4 + (k % 9)})
-    yield {"_kind": "live", "which": which, "tier": tier, "seed": seed}
+    if not alt:
+        yield {"_kind": "live", "which": which, "tier": tier, "seed": seed}
+        yield from alt_descs(tier, seed, which)
     for d in descs:
         yield dict(d, _kind="cert", which=which)
         yield dict(d, _kind="static", which=which)
@@ -379,7 +408,22 @@ def live_terms():
     return terms
 
 
+def get_uct(desc):
+    """(units, table, certificate) of the descriptor's code object: precomputed by the 3.11 child
+    or computed here"""
+    if "pre" in desc:
+        pre = desc["pre"]
+        cert = [None if c is None else (tuple(tuple(v) if isinstance(v, list) else v for v in c[0]),
+                                        tuple(tuple(e) for e in c[1])) for c in pre["cert"]]
+        return [tuple(u) for u in pre["units"]], [tuple(t) for t in pre["table"]], cert
+    co, _ = load_code(desc)
+    units, table = W.abstract_code(co)
+    return units, table, W.certificate(units, table)
+
+
 def run_case(desc):
+    if "pre" in desc:
+        return desc["pre"]["obs"]
     from stackscope import _lowlevel as ll
     if desc["_kind"] == "live":
         return run_live(desc)
@@ -521,7 +565,7 @@ def run_join(co, units, cert, which):
     return res
 
 
-def join_coq(units, table, obs):
+def join_coq(units, table, obs, ver="V312"):
     outs = []
     for o in obs:
         st = clist([W.val_coq(tuple(v) if isinstance(v, list) else v) for v in o["stack"]])
@@ -535,7 +579,7 @@ def join_coq(units, table, obs):
                                              for x in v])
         bl = "(Some %s)" % clist(["(%d, %d)" % (h, l) for h, l in o["blocks"]])
         outs.append("(%s, %d, %s, %s, %s, %d)" % (cbool(o["running"]), o["lasti"], st, pv, bl, o["trim"]))
-    return "(%s,\n %s,\n %s)" % (W.code_coq(units), W.table_coq(table), clist(outs))
+    return "(%s, %s,\n %s,\n %s)" % (ver, W.code_coq(units), W.table_coq(table), clist(outs))
 
 
 def coq_case(desc, obs):
@@ -546,13 +590,11 @@ def coq_case(desc, obs):
                               W.table_coq([tuple(x) for x in obs["parsed"]]))
     if "machine_error" in obs:
         return None
-    co, _ = load_code(desc)
-    units, table = W.abstract_code(co)
+    units, table, cert = get_uct(desc)
     if desc["_kind"] == "join":
-        return join_coq(units, table, obs["join"])
+        return join_coq(units, table, obs["join"], desc.get("ver", "V312"))
     if desc["_kind"] == "cert":
-        cert = W.certificate(units, table)
-        return "(%s,\n %s,\n %s)" % (W.code_coq(units), W.table_coq(table), W.cert_coq(cert))
+        return "(%s, %s,\n %s,\n %s)" % (desc.get("ver", "V312"), W.code_coq(units), W.table_coq(table), W.cert_coq(cert))
 
     def ex(e):
         if e[1] == "warn":
@@ -562,8 +604,8 @@ def coq_case(desc, obs):
         return "(%d, ESome %s %d)" % (e[0], cbool(e[2]), e[3])
 
     wi = None if obs["winfo"] is None else clist(["(%d, %s)" % (h, cbool(a)) for h, a in obs["winfo"]])
-    return "(%s,\n %s,\n %s,\n %s)" % (W.code_coq(units), W.table_coq(table),
-                                      clist([ex(e) for e in obs["exiting"]]), copt(wi))
+    return "(%s, %s,\n %s,\n %s,\n %s)" % (desc.get("ver", "V312"), W.code_coq(units), W.table_coq(table),
+                                          clist([ex(e) for e in obs["exiting"]]), copt(wi))
 
 
 def direct_oracle(desc, obs):
@@ -582,7 +624,7 @@ def direct_oracle(desc, obs):
             return ("_contexts_active_by_trickery %s on a certified observation of compiler output (lasti unit %d)"
                     % (bad[0]["view"], bad[0]["lasti"]))
         return None
-    if desc["_kind"] == "static" and obs.get("winfo") is None and W.has_with(load_code(desc)[0]):
+    if desc["_kind"] == "static" and obs.get("winfo") is None:
         return "analyze_with_blocks raised on compiler output: %s" % obs.get("winfo_error")
     if desc["_kind"] == "static" and any(e[1] == "warn" for e in obs.get("exiting", [])):
         return "currently_exiting_context emitted an InspectionWarning on compiler output at units %r" % [
@@ -593,7 +635,7 @@ def direct_oracle(desc, obs):
 def classify(desc, obs):
     if desc["_kind"] == "live":
         return ["live:states=%s" % obs.get("states"), "live:unmapped=%s" % obs.get("unmapped_states")]
-    labs = [desc["src"] + ":" + desc["_kind"]]
+    labs = [desc["src"] + ":" + desc["_kind"] + (":py3.11" if desc.get("ver") == "V311" else "")]
     if "units" in obs:
         labs.append("units<%d" % (50 if obs["units"] < 50 else 200 if obs["units"] < 200 else 1000 if obs["units"] < 1000 else 100000))
     if desc["_kind"] == "static":
